@@ -23,6 +23,10 @@ FINDINGS = []
 FIXED = [
     "fixed: property=C07 bf54f7f exported JSON/string dropped every combinator's control_behavior (draftsman picked the 2.1 converter for a blueprint stamped 2.0)",
     "fixed: property=C01 b078091 `(cond : value) | \"type\"` folded the projection into the copy-count decider, which then copied the absent target signal and produced 0",
+    "fixed: property=C01 7345843 `x && y` / `x || y` treated a declared input whose default is 0 or 1 as a known boolean and lowered to x*y / (x+y)>0",
+    "fixed: property=C02 eff7aff members of a nested bundle that is itself a wire merge (`{ pair, more }`) were never wired and disappeared",
+    "fixed: property=C02 261848c `(bundle CMP signal) : out` left the scalar on the network `each` iterates over (scalar appears in / alters the filtered bundle)",
+    "fixed: property=C02 43c51c8 `(sig CMP c) : bundle` leaked the condition signal into a merged bundle and produced nothing for a one-signal bundle",
     "fixed: property=C01 7701d37 a comparison with an integer literal on the left (`3 < a`) was emitted as `signal-0 < a`",
 ]
 
@@ -57,6 +61,16 @@ add("C01", "C01-more-same-named-sources-than-wire-colours",
           ["sig", "v3", ["b", "+", ["v", "i3"], ["v", "i3"]]],
           ["sig", "v4", ["s", ["c", "<=", ["v", "v1"], ["v", "v3"]], ["v", "i3"]]]],
          "dag_same_typed"))
+
+
+# ---- C02
+add("C02", K1, K1_WHAT, "K1",
+    case([["input", "m0", "signal-mining", 20],
+          ["bun", "r", ["B", [["v", "m0"], ["t", "signal-thermometer-red", ["n", 29]]]]],
+          ["bun", "e", ["bb", "+", ["v", "r"], ["n", 10]]],
+          ["sig", "other", ["p", ["b", "+", ["v", "m0"], ["n", 1]], "signal-left-parenthesis"]],
+          ["bun", "e2", ["bb", "*", ["B", [["v", "m0"]]], ["n", 3]]]],
+         "shared_member_source"))
 
 
 def main():
